@@ -259,7 +259,7 @@ def run(ctx):
                         "SCM_RIGHTS delivery order and SO_ERROR semantics of the kernel (inputs of the model)"]
     proofs_ok = ctx.require_lean(["UvModel.Props.C07"])
     uexe = ctx.harness("c07_unit", ["harness/c07_unit.c"], link_lib=True)
-    sexe = None
+    sexe = ctx.harness("c07_sim", ["harness/c07_sim.c"], link_lib=True)
     if ctx.replay:
         rp = json.loads(Path(ctx.replay).read_text())["replay"]
         if rp.get("mode") == "unit" and uexe:
